@@ -477,6 +477,34 @@ func pyramids(rng *rand.Rand, h honest) []pyr {
 		m2[rk] = nil
 		add("root-entry-empty", m2)
 	}
+	// large replies: the honest pyramid padded with unrelated VALID chunks whose addresses are
+	// all smaller than the altered entry's, up to 33..47 entries (a peer can pad at will)
+	for _, total := range []int{33, 34, 35, 38, 47} {
+		for _, target := range []string{"root", "largest"} {
+			k := rk
+			if target == "largest" {
+				k = keys[len(keys)-1]
+			}
+			if k < "10" {
+				continue // hardly any address is smaller
+			}
+			m := clone(h.pyramid)
+			for tries := 0; len(m) < total && tries < 4000; tries++ {
+				a, p := pbench.Leaf(rnd(rng, 40))
+				if ka := hex.EncodeToString(a); ka < k {
+					m[ka] = p
+				}
+			}
+			if len(m) != total {
+				continue
+			}
+			add(fmt.Sprintf("padded-to-%d-honest", total), clone(m))
+			d := append([]byte(nil), h.pyramid[k]...)
+			d[8+rng.Intn(len(d)-8)] ^= 1 << uint(rng.Intn(8))
+			m[k] = d
+			add(fmt.Sprintf("padded-to-%d-%s-entry-altered", total, target), m)
+		}
+	}
 	{
 		// the same entry under an upper-case key as well
 		m := clone(h.pyramid)
@@ -505,7 +533,7 @@ var preloadModes = []string{"empty", "some", "all"}
 func TestPyramidTraversal(t *testing.T) {
 	run := obs.Start(t, prop)
 	defer run.Done()
-	run.Rule("traversal.GetChunkHashes(root, pyramid) on the real traversal service with pyramids derived from honest ones (700-byte file, 3-chunk file, 17-chunk file, directory manifest) by altering / truncating / extending an entry, zero-padding an entry to the BMT capacity and appending junk past it, removing, adding and swapping entries; every chunk handed to the store is judged; distinct = (file kind, derivation class, accepted?)",
+	run.Rule("traversal.GetChunkHashes(root, pyramid) on the real traversal service with pyramids derived from honest ones (700-byte file, 3-chunk file, 17-chunk file, directory manifest) by altering / truncating / extending an entry, zero-padding an entry to the BMT capacity and appending junk past it, removing, adding and swapping entries, and padding the reply with unrelated valid chunks up to 33..47 entries with the altered entry at the largest address; every chunk handed to the store is judged; distinct = (file kind, derivation class, accepted?)",
 		"honest pyramids come from the real pipeline and the real GetPyramid; the oracle does not")
 	rng := run.RandFor("traversal")
 	files := honestFiles(t, rng)
